@@ -58,6 +58,8 @@ def gen_cases(tier, seed):
         # eager retry / force_retry variants
         for mode in ("eager_retry", "eager_force"):
             for N in (0, 1, 2):
+                if mode == "eager_retry":
+                    cases.append({"kind": kind, "policy": "zero", "rec": True, "N": N, "patterns": patterns(N), "mode": mode, "seed": rnd.randrange(10**6)})
                 cases.append({"kind": kind, "policy": "linear", "rec": False, "N": N, "patterns": patterns(N) if mode == "eager_retry" else ["F" * (N + 3) + "S"], "mode": mode, "seed": rnd.randrange(10**6)})
         # forced retries beyond the budget, then an ordinary failure: no budget is left, the chain must end (dead / rescheduled)
         for N in (0, 1, 3):
